@@ -78,8 +78,10 @@ static Outcome ZooLeg(RunCtx& ctx, int archive)
 	ZooGenCfg zg;
 	zg.archive = archive;
 	zg.maxLen = s.chance(sim::L_DOC, 1, 4) ? 60 : 6;
+	zg.jumboMember = DrawJumbo(s, sim::L_CFG, 6);
 	Zoo z;
 	GenZoo(s, sim::L_DOC, z, zg);
+	if (zg.jumboMember >= 0 && archive != A_CSV) ctx.count(std::string("jumbo.") + JumboName(zg.jumboMember));
 	if (archive == A_CSV) EnsureCsvRow(z);
 	Outcome out;
 	out.cfgKey = an + "|zoo";
@@ -172,7 +174,35 @@ Outcome RunC10(RunCtx& ctx)
 		for (auto& row : doc.items) BuildProgram(s, sim::L_PROG, row, orderStyle == 1 ? ProgStyle::Reverse : ProgStyle::Shuffle, archive);
 	}
 
-	ctx.note(std::string("archive=") + ArchiveName(archive) + " options: " + OptStr(o));
+	// validation runs (1 in 4): the reading program additionally expects Required() members the document does not have, at any
+	// depth; both entries must then report the same paths and messages
+	DynNode plan = doc;
+	const bool validationRun = s.chance(sim::L_PROG, 1, 4);
+	if (validationRun)
+	{
+		uint32_t idx = 0;
+		ForEachNode(plan, [&](DynNode& n)
+		{
+			if (n.kind != K::Obj || !s.chance(sim::L_PROG, 1, 3)) return;
+			Key k;
+			k.s = "reqAbsent" + std::to_string(idx++);
+			k.cstr = !n.keys.empty() && n.keys[0].cstr;
+			n.keys.push_back(k);
+			DynNode r(K::I32);
+			r.required = true;
+			n.items.push_back(r);
+			if (n.useProgram)
+			{
+				ReqOp op;
+				op.type = ReqOp::Get;
+				op.member = static_cast<uint32_t>(n.items.size() - 1);
+				n.program.insert(n.program.begin() + s.draw(sim::L_PROG, static_cast<uint32_t>(n.program.size() + 1)), op);
+			}
+		});
+		ctx.count("validation_run");
+	}
+
+	ctx.note(std::string("archive=") + ArchiveName(archive) + " options: " + OptStr(o) + (validationRun ? " +required-but-absent members" : ""));
 	if (ctx.describe) ctx.note("document: " + Pretty(doc));
 
 	std::string bytes;
@@ -221,7 +251,7 @@ Outcome RunC10(RunCtx& ctx)
 	sim::stream_call_budget(64 * (bytes.size() + 4096) * 8);
 
 	// (a) memory load = the specification
-	DynNode skelM = Skeleton(doc);
+	DynNode skelM = Skeleton(plan);
 	sim::steps_begin(budget);
 	const CallResult rM = LoadDynWith(ops, skelM, bytes, o, InCfg{});
 	sim::steps_end();
@@ -235,7 +265,7 @@ Outcome RunC10(RunCtx& ctx)
 	{
 		const InCfg c = DrawStreamCfg(s, sim::L_IO);
 		ctx.note("stream load #" + std::to_string(j) + ": " + c.str());
-		DynNode skelS = Skeleton(doc);
+		DynNode skelS = Skeleton(plan);
 		LoadInfo info;
 		sim::steps_begin(budget);
 		const CallResult rS = LoadDynWith(ops, skelS, bytes, o, c, {}, false, &info);
@@ -262,6 +292,11 @@ Outcome RunC10(RunCtx& ctx)
 		else if (!rM.ok && !rS.ok)
 		{
 			if (rM.cat != rS.cat) return Violation("DIVERGENCE", tags + " what=category", "different error categories: memory=" + rM.cat + " (" + rM.what + ") stream=" + rS.cat + " (" + rS.what + ") cfg=" + c.str());
+			if (rM.validation && rS.validation)
+			{
+				sim::probe("validation-paths-compared");
+				if (rM.what != rS.what) return Violation("DIVERGENCE", tags + " what=validation_paths", "different validation reports: memory=" + sim::hex(rM.what, 300) + " stream=" + sim::hex(rS.what, 300) + " cfg=" + c.str());
+			}
 		}
 		else
 		{
